@@ -93,8 +93,8 @@ PROPS = {
         'assumptions': ['digests within go-cid\'s 32 MiB stream cap (SkipNext parses the CID with CidFromReader)'],
     },
     'C01': {
-        'families': [('c01', 25, 250), ('c15', 12, 60)],
-        'rule': 'generated (roots, block list, write options) written by every writer kind {blockstore.ReadWrite, storage.NewReadableWritable, storage.NewWritable on a WriterAt, storage stream CARv1, deferred writer for path and for stream, root-module WriteHeader+LdWrite}, each finished file then read by {BlockReader seekable/plain, v2 Reader DataReader payload, internal CARv1 reader, root CarReader with/without empty-roots error, root LoadCar, blockstore.OpenReadOnly keys+Get, storage.OpenReadable Get}; file bytes predicted byte-for-byte by the model and by the layout spec; plus the traversal family of C15 at a small count for the DAG writer of the root module (WriteCar with repeated / overlapping roots: each block once); distinct = distinct script text',
+        'families': [('c01', 25, 250), ('c15', 12, 60), ('c12', 25, 100)],
+        'rule': 'generated (roots, block list, write options) written by every writer kind {blockstore.ReadWrite, storage.NewReadableWritable, storage.NewWritable on a WriterAt, storage stream CARv1, deferred writer for path and for stream, root-module WriteHeader+LdWrite}, each finished file then read by {BlockReader seekable/plain, v2 Reader DataReader payload, internal CARv1 reader, root CarReader with/without empty-roots error, root LoadCar, blockstore.OpenReadOnly keys+Get, storage.OpenReadable Get}; file bytes predicted byte-for-byte by the model and by the layout spec; plus the traversal family of C15 at a small count for the DAG writer of the root module (WriteCar with repeated / overlapping roots: each block once) and the resumption family of C12 (a writer re-opened on its own file, with or without blocks in it, is a writer too); distinct = distinct script text',
         'trusted': ['go-ipld-cbor/refmt header encoding as transcribed (validated byte-for-byte on every generated header)'],
         'assumptions': ['legacy reader preconditions as documented: carv1.NewCarReader and car.NewCarReader reject empty root lists (NewCarReaderWithOptions(WithErrorOnEmptyRoots(false)) is used for those)'],
     },
